@@ -67,7 +67,7 @@ CHECKS = {
            "checker rejects the bounds 0,0). "
            "Tie: text() vs the model. Oracle: invariant text is matched (absent separator classes) and is the only matched path, incl. its case variants.",
     'C12': "Proved (all token trees, combinators included): has_root = Always => every path of the documented language begins with a separator "
-           "(C12_built_root_sound: for every glob that builds, without side condition); a glob that builds and has no repetition never reports Sometimes (C12_built_globs_without_repetitions_are_never_sometimes_rooted: the RootedSubGlob rule reaches nested branches through the inherited context); "
+           "(C12_built_root_sound: for every glob that builds, without side condition); a glob that builds and has no repetition never reports Sometimes (C12_built_globs_without_repetitions_are_never_sometimes_rooted: the RootedSubGlob rule reaches nested branches through the inherited context; C12_built_globs_that_start_plainly_are_never_sometimes_rooted: the same whenever the starting chain of the tree holds no repetition, or the expression begins with a repetition whose body begins with a leaf); "
            "C12_semantic_literals_found - the breadth-first literal search reaches every component at every nesting depth (fuel proved adequate), so a component spelled "
            "`.` or `..` anywhere makes has_semantic_literals true. Tie: has_root(), "
            "has_semantic_literals(). Oracle: matched paths of always-rooted patterns; globs never Sometimes (one known class); `.`/`..` components at any depth.",
